@@ -114,7 +114,7 @@ func (vc *VC) zeroTerm(s *Sort) Term {
 		case "ptr", "iface":
 			return Atom(s.Alt, s)
 		case "slice":
-			return MkData(s, vc.zeroTerm(s.Fields[0].Sort), IntLit64(0, SInt), IntLit64(0, SInt), TTrue)
+			return MkData(s, vc.zeroTerm(s.Fields[0].Sort), IntLit64(0, SInt), TTrue)
 		case "map":
 			return MkData(s, vc.zeroTerm(s.Fields[0].Sort), vc.zeroTerm(s.Fields[1].Sort), IntLit64(0, SInt), TTrue)
 		default:
@@ -160,7 +160,7 @@ func (ex *Exec) readPath(root Term, path []PathElem) Term {
 		case 'a':
 			cur = ArrayGet(cur, pe.Idx)
 		case 's':
-			cur = Select(FieldOf(cur, 0), addT(FieldOf(cur, 1), pe.Idx))
+			cur = Select(slArr(cur), pe.Idx)
 		case 'm':
 			cur = Ite(Select(FieldOf(cur, 0), pe.Idx), Select(FieldOf(cur, 1), pe.Idx), ex.vc.zeroTerm(cur.Sort.Elem))
 		case 'b':
@@ -182,8 +182,8 @@ func (ex *Exec) writePath(root Term, path []PathElem, v Term) Term {
 	case 'a':
 		return ArraySet(root, pe.Idx, ex.writePath(ArrayGet(root, pe.Idx), path[1:], v))
 	case 's':
-		arr := FieldOf(root, 0)
-		at := addT(FieldOf(root, 1), pe.Idx)
+		arr := slArr(root)
+		at := pe.Idx
 		return WithField(root, 0, Store(arr, at, ex.writePath(Select(arr, at), path[1:], v)))
 	case 'm':
 		dom := FieldOf(root, 0)
